@@ -368,3 +368,15 @@ fn add_response_to_resources(
         }
     }
 }
+
+/// Verification hook: the ingestion step of the receive loop
+#[cfg(simple_dns_verif)]
+pub fn verif_add_response_to_resources(
+    packet: Packet,
+    service_name: &Name<'_>,
+    full_name: &Name<'_>,
+    owned_resources: &mut ResourceRecordManager,
+    on_discovery: &mut Option<std::sync::mpsc::Sender<InstanceInformation>>,
+) {
+    add_response_to_resources(packet, service_name, full_name, owned_resources, on_discovery)
+}
